@@ -961,3 +961,100 @@ package server
 //@   at-return [fset.others] result2 == nil ==> allint(c, c != col ==> astype(c, "collection.Collection").objs == old(astype(c, "collection.Collection").objs))
 //@   at-return [reply] result2 == nil && msg.OutputType == RESP && !ret ==> result0 == respInt(ite(o != nil, cntF(objFields(o), fields, len(fields)), 0))
 //@   at-return [json-reply] result2 == nil && msg.OutputType == JSON && !ret ==> jsonDoc(result0)
+
+// ---- argument handling of the remaining command handlers never indexes out of range (C16 sweep) ----
+// Assumed on entry = what the dispatcher (and the internal callers, which build their own messages) guarantee; the
+// frame is the inferred one.
+//@ func Server.cmdAOF
+//@   frame-by-effects
+//@   entry-assume s != nil && msg != nil && len(msg.Args) > 0 && s.config != nil
+//@ func Server.cmdAOFMD5
+//@   frame-by-effects
+//@   entry-assume s != nil && msg != nil && len(msg.Args) > 0 && s.config != nil
+//@ func Server.cmdBOUNDS
+//@   frame-by-effects
+//@   entry-assume s != nil && msg != nil && len(msg.Args) > 0 && s.config != nil
+//@ func Server.cmdConfigGet
+//@   frame-by-effects
+//@   entry-assume s != nil && msg != nil && len(msg.Args) > 0 && s.config != nil
+//@ func Server.cmdConfigSet
+//@   frame-by-effects
+//@   entry-assume s != nil && msg != nil && len(msg.Args) > 0 && s.config != nil
+//@ func Server.cmdDelHook
+//@   frame-by-effects
+//@   entry-assume s != nil && msg != nil && len(msg.Args) > 0 && s.config != nil
+//@ func Server.cmdEXPIRE
+//@   frame-by-effects
+//@   entry-assume s != nil && msg != nil && len(msg.Args) > 0 && s.config != nil
+//@ func Server.cmdFGET
+//@   frame-by-effects
+//@   entry-assume s != nil && msg != nil && len(msg.Args) > 0 && s.config != nil
+//@ func Server.cmdGET
+//@   frame-by-effects
+//@   entry-assume s != nil && msg != nil && len(msg.Args) > 0 && s.config != nil
+//@ func Server.cmdJdel
+//@   frame-by-effects
+//@   entry-assume s != nil && msg != nil && len(msg.Args) > 0 && s.config != nil
+//@ func Server.cmdJget
+//@   frame-by-effects
+//@   entry-assume s != nil && msg != nil && len(msg.Args) > 0 && s.config != nil
+//@ func Server.cmdJset
+//@   frame-by-effects
+//@   entry-assume s != nil && msg != nil && len(msg.Args) > 0 && s.config != nil
+//@ func Server.cmdPDEL
+//@   frame-by-effects
+//@   entry-assume s != nil && msg != nil && len(msg.Args) > 0 && s.config != nil
+//@ func Server.cmdPDelHook
+//@   frame-by-effects
+//@   entry-assume s != nil && msg != nil && len(msg.Args) > 0 && s.config != nil
+//@ func Server.cmdPERSIST
+//@   frame-by-effects
+//@   entry-assume s != nil && msg != nil && len(msg.Args) > 0 && s.config != nil
+//@ func Server.cmdPublish
+//@   frame-by-effects
+//@   entry-assume s != nil && msg != nil && len(msg.Args) > 0 && s.config != nil
+//@ func Server.cmdREADONLY
+//@   frame-by-effects
+//@   entry-assume s != nil && msg != nil && len(msg.Args) > 0 && s.config != nil
+//@ func Server.cmdReplConf
+//@   frame-by-effects
+//@   entry-assume s != nil && msg != nil && len(msg.Args) > 0 && s.config != nil
+//@ func Server.cmdSET
+//@   frame-by-effects
+//@   entry-assume s != nil && msg != nil && len(msg.Args) > 0 && s.config != nil
+//@ func Server.cmdSTATS
+//@   frame-by-effects
+//@   entry-assume s != nil && msg != nil && len(msg.Args) > 0 && s.config != nil
+//@ func Server.cmdScanArgs
+//@   frame-by-effects
+//@   entry-assume s != nil && s.config != nil
+//@ func Server.cmdScriptExists
+//@   frame-by-effects
+//@   entry-assume s != nil && msg != nil && len(msg.Args) > 0 && s.config != nil
+//@ func Server.cmdScriptLoad
+//@   frame-by-effects
+//@   entry-assume s != nil && msg != nil && len(msg.Args) > 0 && s.config != nil
+//@ func Server.cmdSeachValuesArgs
+//@   frame-by-effects
+//@   entry-assume s != nil && s.config != nil
+//@ func Server.cmdScan
+//@   frame-by-effects
+//@   entry-assume s != nil && msg != nil && len(msg.Args) > 0 && s.config != nil
+//@ func Server.cmdWITHINorINTERSECTS
+//@   frame-by-effects
+//@   entry-assume s != nil && msg != nil && len(msg.Args) > 0 && s.config != nil
+//@ func Server.cmdSubscribe
+//@   frame-by-effects
+//@   entry-assume s != nil && msg != nil && len(msg.Args) > 0 && s.config != nil
+//@ func Server.cmdPsubscribe
+//@   frame-by-effects
+//@   entry-assume s != nil && msg != nil && len(msg.Args) > 0 && s.config != nil
+//@ func Server.cmdINFO
+//@   frame-by-effects
+//@   entry-assume s != nil && msg != nil && len(msg.Args) > 0 && s.config != nil
+//@ func Server.cmdSERVER
+//@   frame-by-effects
+//@   entry-assume s != nil && msg != nil && len(msg.Args) > 0 && s.config != nil
+//@ func Server.cmdScriptFlush
+//@   frame-by-effects
+//@   entry-assume s != nil && msg != nil && len(msg.Args) > 0 && s.config != nil
